@@ -11,7 +11,7 @@ TRUSTED = [
     "hand-written model coq/frame/{Crc.v,Frame.v} of datacake-rpc/src/rkyv_tooling/{mod.rs,view.rs} and of the "
     "request/reply path of request.rs, client.rs, net/server.rs; tied to the code by the differential executor hx-frame",
     "rkyv's serializer and archived views are NOT modelled: a codec (archive, view, fixed = size_of::<T::Archived>()) with "
-    "the round-trip law as a hypothesis; hyper body reassembly is replaced by the in-process transport",
+    "the round-trip law as a hypothesis; hyper/h2 framing is replaced by the in-process transport hook, which can re-send bodies in pieces without a length hint so that the real reassembly (utils::to_aligned) is exercised",
     "crc32fast is modelled as bit-serial reflected CRC-32 (poly 0xEDB88320, init/final 0xFFFFFFFF); compared through "
     "to_view_bytes / DataView::using only",
     "extraction: ExtrOcamlBasic only; OCaml 4.13.1; ocaml/frame/conv.ml + modelrun.ml (hex parsing/printing)",
@@ -108,7 +108,9 @@ def run(ck):
              "every single-bit flip, every truncation, every checksum-valid proper prefix, 1..8 byte extensions and other damage "
              "of real frames (every mutation of frames up to ~1 KiB quick / 3 KiB thorough is also run on the extracted model; for "
              "frames up to ~4 KiB every flip and truncation is judged by the oracle and a sample is run on the model); raw and "
-             "typed request/reply exchanges and handler-error exchanges through Server::verif_local + Channel + RpcClient; all "
+             "typed request/reply exchanges and handler-error exchanges through Server::verif_local + Channel + RpcClient, "
+             "again with the transport delivering request and reply bodies in pieces of 1, 3, 16 and 1000 bytes without a length "
+             "hint (cases echo@n / rpc@n / status@n: body reassembly must return every byte); all "
              "under a release build, a reduced stream and the corpus also under a debug-assertions build. "
              "non-trivial = distinct (case,result) pairs other than a `using` case refused only for being shorter than fixed+4",
         trusted_base=TRUSTED,
